@@ -289,6 +289,7 @@ DEFAULTS = dict(
     n_inplay=(0, 8),
     p_inplay=0.5,
     p_suspend_reopen=0.3,  # per market, a SUSPENDED -> OPEN cycle with version change
+    p_keep_books=0.0,  # at a suspension (also the one at the off) the ladders are left as they are and not sent again on re-opening
     p_removal=0.0,
     p_bsp=0.8,
     p_persistence=0.8,
@@ -428,14 +429,17 @@ class Director:
         if version_bump:
             ch["version"] = self.mf.md["version"] + self.rng.randint(1, 50)
         ch.update(extra or {})
-        self.mf.emit(self.step_time(), md_changes=ch, rc=self.mf.clear_books_rc())
+        self._kept = self.rng.random() < self.p["p_keep_books"] if self.p["p_keep_books"] else False
+        self.mf.emit(self.step_time(), md_changes=ch, rc={} if self._kept else self.mf.clear_books_rc())
 
     def reopen(self, extra=None):
         ch = {"status": "OPEN"}
         ch.update(extra or {})
         rc = {}
-        for key in self.active_keys():
-            rc[key] = self.book_for(key)
+        if not getattr(self, "_kept", False):
+            for key in self.active_keys():
+                rc[key] = self.book_for(key)
+        self._kept = False
         self.mf.emit(self.step_time(), md_changes=ch, rc=rc)
 
     def remove_runner(self, key, factor="own", with_suspend=False):
@@ -465,7 +469,8 @@ class Director:
                 runner_md[key] = {"bsp": max(1.01, sp)}
         ch = {"status": "SUSPENDED", "version": self.mf.md["version"] + rng.randint(1, 50)}
         ch.update(extra)
-        self.mf.emit(self.step_time(), md_changes=ch, runner_md=runner_md, rc=self.mf.clear_books_rc())
+        self._kept = rng.random() < self.p["p_keep_books"] if self.p["p_keep_books"] else False
+        self.mf.emit(self.step_time(), md_changes=ch, runner_md=runner_md, rc={} if self._kept else self.mf.clear_books_rc())
         self.reopen(extra={"inPlay": True, "betDelay": rng.choice(self.p["inplay_bet_delay"])})
 
     def close(self, winners=None, repeat=0, statuses=None):
